@@ -210,13 +210,18 @@ def enc_l8(st, node, label):
     return (8, l8_length(midv, clipv, sv, hv), [tid, slope, offset, power, chroma, sg, ms, midv, clipv] + sv + hv)
 
 
-def enc_l2(st, node, target_max_pq, label):
+def enc_l2(st, node, target_max_pq, label, ms_i16=False):
     _, tid, tr = node
     f = [Fraction(t) for t in tr]
     slope, offset, power = enc_trim(st, f[3], f[4], f[5], label)
     chroma = enc_lin12(st, f[6], label + "/trim_chroma_weight")
     sg = enc_lin12(st, f[7], label + "/trim_saturation_gain")
-    ms = enc_lin12(st, f[8], label + "/ms_weight")
+    if ms_i16:
+        # known deviation of the tool (`as i16`): a negative value is kept instead of saturating to 0
+        r = st.round(f[8] * 2048 + 2048, label + "/ms_weight")
+        ms = min(4095, max(-32768, min(32767, r)))
+    else:
+        ms = enc_lin12(st, f[8], label + "/ms_weight")
     return (2, 11, [target_max_pq, slope, offset, power, chroma, sg, ms])
 
 
@@ -290,7 +295,7 @@ def validate_frame(blocks):
         cnt[level] = cnt.get(level, 0) + 1
         if level in (1, 2, 3) and any(v > 4095 for v in vals):
             raise Unencodable("L%d value above 4095" % level)
-        if level == 2 and vals[6] < -1:
+        if level == 2 and vals[6] < -1:          # only reachable with the `l2-ms-weight-as-i16` quirk
             raise Unencodable("L2 ms_weight below -1")
         if level == 5 and any(v > 8191 for v in vals):
             raise Unencodable("L5 offset above 8191")
@@ -317,13 +322,35 @@ def validate_frame(blocks):
 # the document
 # ---------------------------------------------------------------------------------------------
 
-def spec(doc, cw=None, ch=None, flips=frozenset()):
-    """expected generation result of `generate --xml doc [--canvas-width cw --canvas-height ch]`"""
+QUIRKS = ("l2-ms-weight-as-i16", "frame-node-read-as-shot-node", "trim-for-non-home-target-panics")
+
+
+def traits(doc):
+    """which known deviations of the tool a document can run into (see known_findings.json)"""
+    out = set()
+    v5 = doc["version"].startswith("5")
+    excluded = set(t["id"] for t in doc["targets"] if v5 and t["app"] != "HOME")
+    for s in doc["shots"]:
+        if s["levels"] is None and any(f["levels"] is not None for f in s["frames"]):
+            out.add("frame-node-read-as-shot-node")
+        for nodes in [s["levels"]] + [f["levels"] for f in s["frames"]]:
+            for nd in nodes or []:
+                if nd[0] == "L2" and Fraction(nd[2][8]) * 2048 + 2048 < -HALF + MARGIN:
+                    out.add("l2-ms-weight-as-i16")
+                if nd[0] in ("L2", "L8") and nd[1] in excluded:
+                    out.add("trim-for-non-home-target-panics")
+    return out
+
+
+def spec(doc, cw=None, ch=None, flips=frozenset(), quirks=frozenset()):
+    """expected generation result of `generate --xml doc [--canvas-width cw --canvas-height ch]`;
+    `quirks`: evaluate with the named known deviations of the tool instead of the documented behaviour"""
     st = Sites(flips)
     ver = doc["version"]
     cm40 = ver != "2.0.5"
     v5 = ver.startswith("5")
     res = {"cm40": cm40, "status": "ok", "reason": ""}
+    excluded = set(t["id"] for t in doc["targets"] if v5 and t["app"] != "HOME")
 
     # global L5
     if doc["canvas_ar"] is not None and doc["image_ar"] is not None:
@@ -377,10 +404,15 @@ def spec(doc, cw=None, ch=None, flips=frozenset()):
             lab = "%s/%s#%d" % (label, nd[0], k)
             if nd[0] == "L1":
                 out.append(enc_l1(st, nd[1], cm40, lab))
+            elif nd[0] in ("L2", "L8") and nd[1] in excluded and nd[1] not in targets:
+                # v5: only HOME targets are read; a trim for another application type has no target here
+                if "trim-for-non-home-target-panics" in quirks:
+                    res["status"] = "panic"
+                continue
             elif nd[0] == "L2":
                 if nd[1] not in targets:
                     raise KeyError("trim for an unknown target")
-                out.append(enc_l2(st, nd, target_pq[nd[1]], lab))
+                out.append(enc_l2(st, nd, target_pq[nd[1]], lab, "l2-ms-weight-as-i16" in quirks))
             elif nd[0] == "L3":
                 out.append(enc_l3(st, nd[1], lab))
             elif nd[0] == "L5":
@@ -395,7 +427,11 @@ def spec(doc, cw=None, ch=None, flips=frozenset()):
 
     shots = []
     for k, s in enumerate(doc["shots"]):
-        shots.append({"start": s["start"], "duration": s["duration"], "blocks": enc_nodes(s["levels"], "shot%d" % k),
+        own = s["levels"]
+        if own is None and "frame-node-read-as-shot-node" in quirks:
+            # known deviation: the first dynamic-data node below the Shot (a Frame's) is taken as the shot's
+            own = next((f["levels"] for f in s["frames"] if f["levels"] is not None), None)
+        shots.append({"start": s["start"], "duration": s["duration"], "blocks": enc_nodes(own, "shot%d" % k),
                       "edits": [(f["offset"], enc_nodes(f["levels"], "shot%d/edit%d" % (k, j))) for j, f in enumerate(s["frames"])]})
 
     res["config"] = {"cm40": cm40, "level5": level5[2], "level6": level6[2], "min": source_min_pq, "max": source_max_pq,
@@ -433,8 +469,9 @@ def spec(doc, cw=None, ch=None, flips=frozenset()):
                 frames.append({"scene_refresh_flag": 1 if i == 0 else 0, "source_min_pq": source_min_pq,
                                "source_max_pq": source_max_pq, "blocks": bl, "shot": si, "offset": i})
     except Unencodable as e:
-        res["status"] = "unencodable"
-        res["reason"] = str(e)
+        if res["status"] == "ok":
+            res["status"] = "unencodable"
+            res["reason"] = str(e)
     res["frames"] = frames
     res["sites"] = st.n
     res["ambiguous"] = st.ambiguous
@@ -495,7 +532,7 @@ def model_line(cfg):
         c.append("defaults=" + ";".join(compact_block(b) for b in cfg["defaults"]))
     sh = []
     for s in cfg["shots"]:
-        eds = "^".join("%d@%s" % (off, "+".join(compact_block(b) for b in bl)) for off, bl in s["edits"] if bl)
+        eds = "^".join("%d@%s" % (off, "+".join(compact_block(b) for b in bl)) for off, bl in s["edits"])
         sh.append("%d:%d:%s:%s" % (s["start"], s["duration"], ";".join(compact_block(b) for b in s["blocks"]), eds))
     c.append("shots=" + "~".join(sh))
     l254 = cfg["l254"]
